@@ -27,19 +27,29 @@ func indexedSelect(
 		return err
 	}
 
-	return ind.Scan(func(r sdb.Record) bool {
+	var cbErr error
+	if err := ind.Scan(func(r sdb.Record) bool {
 		rowid, _, err := sdb.ChompRowid(r)
 		if err != nil {
-			return false
+			cbErr = err
+			return true
 		}
 		row, err := tab.Rowid(rowid)
-		if err != nil || row == nil {
-			// row should never be nil
-			return false
+		if err != nil {
+			cbErr = err
+			return true
+		}
+		if row == nil {
+			// every index entry points to a table row
+			cbErr = sdb.ErrCorrupted
+			return true
 		}
 		cb(toRow(rowid, ci, row))
 		return false
-	})
+	}); err != nil {
+		return err
+	}
+	return cbErr
 }
 
 // index (==) search on a rowid table
@@ -66,21 +76,31 @@ func indexedSelectEq(
 		return err
 	}
 
-	return ind.ScanEq(
+	var cbErr error
+	if err := ind.ScanEq(
 		key,
 		func(r sdb.Record) bool {
 			rowid, _, err := sdb.ChompRowid(r)
 			if err != nil {
-				return false
+				cbErr = err
+				return true
 			}
 			row, err := tab.Rowid(rowid)
-			if err != nil || row == nil {
-				// row should never be nil
-				return false
+			if err != nil {
+				cbErr = err
+				return true
+			}
+			if row == nil {
+				// every index entry points to a table row
+				cbErr = sdb.ErrCorrupted
+				return true
 			}
 			cb(toRow(rowid, ci, row))
 			return false
-		})
+		}); err != nil {
+		return err
+	}
+	return cbErr
 }
 
 // index scan on a WITHOUT ROWID table
@@ -114,7 +134,8 @@ func indexedSelectNonRowid(
 		return err
 	}
 
-	return ind.Scan(func(r sdb.Record) bool {
+	var cbErr error
+	if err := ind.Scan(func(r sdb.Record) bool {
 		setKey(r, cols, pk)
 
 		var found sdb.Record
@@ -122,13 +143,21 @@ func indexedSelectNonRowid(
 			found = row
 			return true
 		})
-		if err != nil || found == nil {
-			// found should never be nil
-			return false
+		if err != nil {
+			cbErr = err
+			return true
+		}
+		if found == nil {
+			// every index entry points to a table row
+			cbErr = sdb.ErrCorrupted
+			return true
 		}
 		cb(toRow(0, ci, found))
 		return false
-	})
+	}); err != nil {
+		return err
+	}
+	return cbErr
 }
 
 // index (==) search on a WITHOUT ROWID table
@@ -163,21 +192,30 @@ func indexedSelectEqNonRowid(
 		return err
 	}
 
-	return ind.ScanEq(
+	var cbErr error
+	if err := ind.ScanEq(
 		key,
 		func(r sdb.Record) bool {
 			setKey(r, cols, pk)
 
 			var found sdb.Record
 			err := tab.ScanEq(pk, func(row sdb.Record) bool { found = row; return true })
-			if err != nil || found == nil {
-				// found should never be nil
-				return false
+			if err != nil {
+				cbErr = err
+				return true
+			}
+			if found == nil {
+				// every index entry points to a table row
+				cbErr = sdb.ErrCorrupted
+				return true
 			}
 			cb(toRow(0, ci, found))
 			return false
 		},
-	)
+	); err != nil {
+		return err
+	}
+	return cbErr
 }
 
 // make a key from columns from the record
